@@ -71,8 +71,12 @@ def gen_script(rng, t, nops=None, faults=False, misuse=False):
             for _ in range(rng.randint(5, 60)):
                 lines.append('tn %d %d' % (size, 1))
             lines.append('dall %s' % rng.choice(['fwd', 'rev', 'alt', 'half']))
-        elif r < 0.88:
+        elif r < 0.86:
             lines.append('q %d' % size)
+        elif r < 0.88:
+            # take single nodes until the allocator refuses: everything the capacity figures promise must be obtainable
+            lines.append('drain %d' % (t['lns'] if t['kind'] == 'pool' else size))
+            lines.append('dall %s' % rng.choice(['fwd', 'rev', 'alt', 'half']))
         elif r < 0.91:
             # oversize / over-aligned requests must be refused without touching anything
             big = (t['lns'] + rng.choice([1, 8, 1000])) if t['kind'] == 'pool' else (t['mx'] * 2 + rng.choice([1, 5, 1000]))
@@ -90,3 +94,42 @@ def gen_script(rng, t, nops=None, faults=False, misuse=False):
     lines.append('d 0')
     lines.append('destroy')
     return '\n'.join(lines) + '\n'
+
+
+def gen_fragment_script(rng):
+    """arrays taken from a fragmented free list: fill the pool, release runs of 1..4 neighbouring nodes in varying order,
+    take arrays of 2..4 nodes, release everything, then drain the pool node by node (everything promised must be obtainable)"""
+    pt = rng.choice(['node', 'array'])
+    ns = rng.choice([8, 16, 24, 40])
+    k = rng.choice([8, 12, 20, 33])
+    src = rng.choice(['grow', 'fixed'])
+    t = dict(kind='pool', pt=pt, ns=ns, lns=ns, bs=16 + ns * k, src=src, pos=rng.choice(['low', 'high']))
+    t['line'] = 'pool %s %d %d %s %s' % (pt, ns, t['bs'], src, t['pos'])
+    lines = [t['line']]
+    for cycle in range(rng.randint(2, 4)):
+        lines += ['tn %d 1' % ns] * k
+        # handles are numbered in allocation order; the selector "d i" releases the i-th live one
+        live = list(range(k))
+        # runs of neighbouring nodes separated by at least one live node; released longest first and each in descending
+        # address order (mostly), so that the list presents short ascending runs before the longer ones
+        runs = []
+        i = rng.choice([0, 1])
+        while i < k:
+            ln = rng.choice([1, 2, 2, 3, 3, 4, 5])
+            runs.append(list(range(i, min(k, i + ln))))
+            i += ln + rng.choice([1, 1, 2])
+        if rng.random() < 0.7:
+            runs.sort(key=len, reverse=True)
+        else:
+            rng.shuffle(runs)
+        for run in runs:
+            order = run[::-1] if rng.random() < 0.8 else run
+            for h in order:
+                lines.append('d %d' % live.index(h)); live.remove(h)
+        for _ in range(rng.randint(1, 3)):
+            lines.append('%s %d %d 1' % (rng.choice(['ta', 'ta', 'aa' if src == 'grow' else 'ta']), rng.choice([2, 3, 3, 4, 5]), ns))
+        lines.append('dall %s' % rng.choice(['fwd', 'rev', 'alt']))
+        lines.append('drain %d' % ns)
+        lines.append('dall %s' % rng.choice(['fwd', 'rev', 'alt']))
+    lines.append('destroy')
+    return t, '\n'.join(lines) + '\n'
